@@ -109,6 +109,14 @@ class History:
             u = self.pick()
             self.hold(u)
         elif k == 'release':
+            if rng.random() < 0.15:
+                # a VOID release: `decref` of a node whose count is already 0 is documented to have
+                # no effect ("with 0 as minimum value"); the ledger is not touched
+                zero = [u for u in self.pool if abs(u) in self.b._succ and self.b._ref.get(abs(u)) == 0]
+                if zero:
+                    self.ctx.count('op:void-release')
+                    s.decref(mid, rng.choice(zero))
+                    return
             self.release()
         elif k == 'gc':
             s.op(mid, 'gc')
